@@ -237,7 +237,7 @@ def clause_lookback(prog, rep, scope):
 
 def clause_dedup_transient(prog, rep, roots):
     for f in roots:
-        dedup = [c for c in f.live_calls() if K.is_storage_trait_call(c, "find_processed_message_by_event_id")]
+        dedup = K.pure_lookup_calls(prog, f, "find_processed_message_by_event_id")
         rep.floor("transient-not-terminal", "dedup lookup in process_message", len(dedup), 1)
         if not dedup:
             continue
